@@ -25,6 +25,10 @@ from rsatoolbox.inference import bootstrap as B
 
 from lean import rat
 from engines import C09_r3 as R3
+from engines import C09_r4 as R4
+
+OPS = dict(R3.OPS)
+OPS.update(R4.OPS)
 
 PROPERTY = 'C09'
 LEVEL = 'proof'
@@ -42,7 +46,10 @@ THEOREMS = [P + n for n in (
     'draw_request_tied', 'draw_request_valid', 'nan_rule_tied', 'np_model_agrees',
     'mixed_rdm_int_never_sampled', 'np_sample_multiplicity', 'session_aligned',
     'resample_commute', 'testset_partition', 'testset_size', 'testset_thresholds_tied',
-    'boot_testset_pattern_spec', 'equal_frequency_symmetric', 'equal_frequency_of_uniform')]
+    'boot_testset_pattern_spec', 'equal_frequency_symmetric', 'equal_frequency_of_uniform',
+    # round 4: no hidden state — in-place operations between draws
+    'subsamplePattern_eq_gather', 'gather_entry', 'sample_after_inplace', 'inplace_same_conditions',
+    'session_no_hidden_state', 'draw_reorder_draw')]
 RULE = ('one PRNG; stacks of 1-5 RDMs x 2-8 conditions with unique integer tags as '
         'dissimilarities (some source entries NaN or 0), built from vectors or matrices; grouping '
         'descriptors int or str, unique or repeated, list or numpy array, default `index` or a '
@@ -51,7 +58,10 @@ RULE = ('one PRNG; stacks of 1-5 RDMs x 2-8 conditions with unique integer tags 
         'optional resampling of a prediction with the returned pattern indices; stacks built from a '
         '1-d vector, with scalar descriptors, without descriptor arguments; explicit '
         'pattern_descriptor=None; direct RDMs.subsample / subsample_pattern calls with by None or '
-        'named and value a scalar, list, tuple or array of (repeated, possibly absent) values.  A case is '
+        'named and value a scalar, list, tuple or array of (repeated, possibly absent) values; '
+        'multi-step sessions on ONE object (draw, then sort_by / reorder / append / write to '
+        '.dissimilarities / descriptor edit in place, then draw again, also with models whose rdm_obj is '
+        'reordered alike), every draw judged against the current labelled content.  A case is '
         'non-trivial when the sample differs from the source (a group left out or drawn twice); '
         'distinct = distinct (mode, stack, descriptors, draws).')
 BRANCHES = ['mode:both', 'mode:rdm', 'mode:pattern', 'desc:int', 'desc:str', 'container:list',
@@ -73,7 +83,15 @@ BRANCHES = ['mode:both', 'mode:rdm', 'mode:pattern', 'desc:int', 'desc:str', 'co
             'op:exotic', 'exotic:mixed_rdm', 'exotic:mixed_pattern', 'exotic:none_rdm',
             'exotic:none_pattern', 'exotic:2d_rdm', 'exotic:2d_pattern', 'exotic:rejected',
             'exotic:handled', 'desc:bool', 'container:array_obj', 'container:array_small',
-            'nested:pattern', 'nested:subset']
+            'nested:pattern', 'nested:subset',
+            # round 4: multi-step sessions on one mutable object
+            'op:inplace', 'inplace:sort_by', 'inplace:sort_alpha', 'inplace:sort_list', 'inplace:reindex',
+            'inplace:reorder', 'inplace:pdesc', 'inplace:regroup', 'inplace:rdesc', 'inplace:write_item',
+            'inplace:write_rebind', 'inplace:append', 'inplace:draw_op_draw', 'inplace:order_changed',
+            'inplace:multi_op', 'inplace:model', 'inplace:model_predict', 'inplace:model_rdm_obj',
+            'inplace:from_initial', 'inplace:fn_pattern', 'inplace:fn_both', 'inplace:fn_rdm',
+            'inplace:fn_direct', 'inplace:regroup_rdm', 'inplace:append_between', 'inplace:model_reordered',
+            'inplace:model_fixed', 'inplace:model_select', 'inplace:model_weighted', 'inplace:model_interp']
 ASSUMPTIONS = [
     'np.random.randint(0, n, size=n) returns n integers in [0, n) (checked on every recorded '
     'call); its uniformity is trusted and only sanity-checked by the 6-sigma frequency cases',
@@ -371,8 +389,8 @@ def _freq_bad(res):
 # ------------------------------------------------------------------ engine callbacks
 
 def run_impl(case):
-    if case.get('op') in R3.OPS:
-        return R3.OPS[case['op']]['impl'](case)
+    if case.get('op') in OPS:
+        return OPS[case['op']]['impl'](case)
     if case.get('op') == 'freq':
         return _freq_impl(case)
     r = _call(case)
@@ -404,8 +422,8 @@ def _draws_for_model(case):
 
 
 def model_requests(case):
-    if case.get('op') in R3.OPS:
-        return R3.OPS[case['op']]['requests'](case)
+    if case.get('op') in OPS:
+        return OPS[case['op']]['requests'](case)
     if case.get('op') == 'freq':
         # descriptor taken from the case itself (the real constructor may be what is broken)
         axis = case['axis']
@@ -440,8 +458,8 @@ def model_requests(case):
 
 
 def model_result(case, answers):
-    if case.get('op') in R3.OPS:
-        return R3.OPS[case['op']]['model'](case, answers)
+    if case.get('op') in OPS:
+        return OPS[case['op']]['model'](case, answers)
     if case.get('op') == 'freq':
         return {'select': answers[0]}
     if not answers:
@@ -502,8 +520,8 @@ def _compare_boot(case, impl, model):
 def compare(case, impl, model):
     if isinstance(model, dict) and 'model_error' in model:
         return f'model error {model}'
-    if case.get('op') in R3.OPS:
-        return R3.OPS[case['op']]['compare'](case, impl, model)
+    if case.get('op') in OPS:
+        return OPS[case['op']]['compare'](case, impl, model)
     if case.get('op') == 'freq':
         if 'exc' in impl:
             return f"library raised {impl['exc']}: {impl.get('msg')}"
@@ -635,8 +653,8 @@ def _check_sample(case, src_vecs, sample, ridx, pidx, rdm_desc_key='rdm_desc', f
 
 
 def oracle(case):
-    if case.get('op') in R3.OPS:
-        return R3.OPS[case['op']]['oracle'](case)
+    if case.get('op') in OPS:
+        return OPS[case['op']]['oracle'](case)
     if case.get('op') == 'freq':
         res = _freq_impl(case)
         bad = _freq_bad(res)
@@ -676,8 +694,8 @@ def _groups(vals):
 
 
 def features(case, impl):
-    if case.get('op') in R3.OPS:
-        return R3.OPS[case['op']]['features'](case, impl)
+    if case.get('op') in OPS:
+        return OPS[case['op']]['features'](case, impl)
     if case.get('op') == 'freq':
         return {'op': 'freq', 'axis': case['axis'], 'branches': ['freq']}
     resample = case.get('op') == 'resample'
@@ -755,7 +773,7 @@ def features(case, impl):
 
 
 def nontrivial_key(case, impl):
-    if case.get('op') in R3.OPS:
+    if case.get('op') in OPS:
         return [case['op'], json.dumps(case, sort_keys=True)]
     if case.get('op') == 'freq':
         return ['freq', case['axis'], case['n_rdm'], case['n_cond'], case['draws']['seed']]
@@ -953,6 +971,8 @@ def _round3_stream(rng, scale):
         yield R3.make_exotic(rng)
     for _ in range(10 * min(scale, 6)):
         yield R3.make_fx(rng)
+    for i in range(200 * scale):
+        yield R4.make_inplace(rng, with_models=(i % 10 < 4))
 
 
 def _all_draws(m):
@@ -1021,6 +1041,8 @@ def search(rng, tier):
             yield R3.make_session(rng)
             yield R3.make_testset(rng)
             yield _nested_case(rng)
+        if i % 4 == 1:
+            yield R4.make_inplace(rng)
         if i % 200 == 0:
             yield R3.make_fx(rng)
 
@@ -1058,7 +1080,9 @@ def shrink(case, still_fails):
     trailing RDMs and conditions"""
     if case.get('op') == 'session':
         return R3.shrink_session(case, still_fails)
-    if case.get('op') in ('freq', 'resample') or case.get('op') in R3.OPS or case.get('nested'):
+    if case.get('op') == 'inplace':
+        return R4.shrink_inplace(case, still_fails)
+    if case.get('op') in ('freq', 'resample') or case.get('op') in OPS or case.get('nested'):
         return case
     cur = json.loads(json.dumps(case))
 
